@@ -5,6 +5,8 @@ CONSTANTS
   MaxSec = 0
   Timeouts = TRUE
   Handoff = FALSE
+  Eager = TRUE
+  Fifo = TRUE
   MaxWait = 3
   UniqueVals = FALSE
   Ghost = FALSE
